@@ -154,7 +154,7 @@ def _tree_bytes(obj):
 
 def plan(tier, seed):
     n = 16 if tier == "quick" else 48
-    return [{"kind": "machine", "shard": i, "seed": seed, "examples": 4 if tier == "quick" else 12, "steps": 7 if tier == "quick" else 10} for i in range(n)]
+    return [{"kind": "machine", "shard": i, "seed": seed, "examples": 4 if tier == "quick" else 36, "steps": 7 if tier == "quick" else 10} for i in range(n)]
 
 
 def work(sh):
